@@ -485,4 +485,165 @@ def classify (s : String) : Word :=
 /-- property keys are case-insensitive, values are verbatim. -/
 def mkKV (key : String) (d : Delim) (val : String) : KV := ⟨key.toLower, d, val⟩
 
+/-! ### character-level lexer (executable; cross-checks the harness's tokenisation)
+
+`lex` turns the characters of a DS9 file of the supported subset into the token stream that
+`interp` reads.  It is total (fuel = number of characters) and written from the lexical
+conventions of the format: blanks separate, `\n` and `;` end a statement, `(` `)` `,` are
+punctuation, a `#` at the start of a statement opens a comment that runs to the end of the
+physical line, any other `#` (and the keyword `global`) opens a property list of `key=value`
+items whose value is a `{}`/`""`/`''`-delimited text (kept verbatim) or a bare word optionally
+followed by numbers (`dashlist=8 3`, `point=diamond 12`); what follows the last item is free
+text.  Numbers: `[+-]digits[.digits]` followed by `:`..`:`.., `h`..`m`..`s`, `d`..`m`..`s` or an
+optional one-letter suffix.  There are no theorems about `lex`; the driver checks, for every
+generated file, that `lex text` equals the token stream rendered by the harness. -/
+
+def isBlank (c : Char) : Bool := c = ' ' || c = '\t' || c = '\r'
+
+def trimChars (l : List Char) : List Char :=
+  ((l.dropWhile isBlank).reverse.dropWhile isBlank).reverse
+
+/-- digits → natural number. -/
+def natOf (ds : List Char) : ℕ := ds.foldl (fun n c => 10 * n + (c.toNat - '0'.toNat)) 0
+
+/-- an unsigned decimal `digits[.digits]` at the head of the input: value and rest. -/
+def readDecimal (cs : List Char) : ℚ × List Char :=
+  let ip := cs.takeWhile Char.isDigit
+  let r := cs.dropWhile Char.isDigit
+  match r with
+  | '.' :: r' =>
+    let fp := r'.takeWhile Char.isDigit
+    (((natOf (ip ++ fp) : ℕ) : ℚ) / ((10 ^ fp.length : ℕ) : ℚ), r'.dropWhile Char.isDigit)
+  | _ => (((natOf ip : ℕ) : ℚ), r)
+
+def suffixOfChar : Char → Option Suffix
+  | '"' => some .arcsec
+  | '\'' => some .arcmin
+  | 'd' => some .deg
+  | 'r' => some .rad
+  | 'i' => some .img
+  | 'p' => some .phys
+  | _ => none
+
+def startsWithDigit : List Char → Bool
+  | c :: _ => c.isDigit
+  | [] => false
+
+/-- a number (sign already removed) in any notation: token and rest. -/
+def readNum (neg : Bool) (cs : List Char) : Num × List Char :=
+  let sgn : ℚ := if neg then -1 else 1
+  let (a, r) := readDecimal cs
+  let ai := natOf (cs.takeWhile Char.isDigit)
+  match r with
+  | ':' :: r1 =>
+    let bi := natOf (r1.takeWhile Char.isDigit)
+    match r1.dropWhile Char.isDigit with
+    | ':' :: r2 => let (c, r3) := readDecimal r2; (.colon neg ai bi c, r3)
+    | r2 => (.colon neg ai bi 0, r2)
+  | 'h' :: r1 =>
+    if startsWithDigit r1 then
+      let bi := natOf (r1.takeWhile Char.isDigit)
+      match r1.dropWhile Char.isDigit with
+      | 'm' :: r2 =>
+        let (c, r3) := readDecimal r2
+        (.hms neg ai bi c, match r3 with | 's' :: r4 => r4 | _ => r3)
+      | r2 => (.hms neg ai bi 0, r2)
+    else (.dec (sgn * a) .none, r)
+  | 'd' :: r1 =>
+    if startsWithDigit r1 then
+      let bi := natOf (r1.takeWhile Char.isDigit)
+      match r1.dropWhile Char.isDigit with
+      | 'm' :: r2 =>
+        let (c, r3) := readDecimal r2
+        (.dms neg ai bi c, match r3 with | 's' :: r4 => r4 | _ => r3)
+      | r2 => (.dms neg ai bi 0, r2)
+    else (.dec (sgn * a) .deg, r1)
+  | c :: r1 =>
+    match suffixOfChar c with
+    | some u => (.dec (sgn * a) u, r1)
+    | none => (.dec (sgn * a) .none, r)
+  | [] => (.dec (sgn * a) .none, [])
+
+def isNumWord (w : List Char) : Bool :=
+  !w.isEmpty && w.all fun c => c.isDigit || c = '.' || c = '-' || c = '+'
+
+/-- extend a bare property value with following all-numeric words (`8 3`, `diamond 12`). -/
+def readBareTail : ℕ → List Char → List Char × List Char
+  | 0, cs => ([], cs)
+  | fuel + 1, cs =>
+    let r := cs.dropWhile isBlank
+    let w := r.takeWhile fun c => !(isBlank c || c = ';' || c = '\n')
+    if isNumWord w then
+      let (more, rest) := readBareTail fuel (r.drop w.length)
+      (' ' :: w ++ more, rest)
+    else ([], cs)
+
+inductive LexMode | shape | props
+deriving DecidableEq
+
+/-- the lexer proper. `start` = "no token of the current statement has been produced yet". -/
+def lexAux : ℕ → LexMode → Bool → List Char → List Tok
+  | 0, _, _, _ => []
+  | _, _, _, [] => []
+  | fuel + 1, mode, start, c :: cs =>
+    if c = '\n' then .nl :: lexAux fuel .shape true cs
+    else if c = ';' then .semi :: lexAux fuel .shape true cs
+    else if isBlank c then lexAux fuel mode start cs
+    else if c = '#' then
+      if start then
+        -- comment: to the end of the physical line
+        let body := cs.takeWhile (· ≠ '\n')
+        let rest := cs.dropWhile (· ≠ '\n')
+        .hash :: .note (String.ofList (trimChars (body.dropWhile fun x => x = '#' || isBlank x))) ::
+          lexAux fuel .shape false rest
+      else .hash :: lexAux fuel .props false cs
+    else
+      match mode with
+      | .shape =>
+        if c = '(' then .lpar :: lexAux fuel .shape false cs
+        else if c = ')' then .rpar :: lexAux fuel .shape false cs
+        else if c = ',' then .comma :: lexAux fuel .shape false cs
+        else if c.isAlpha then
+          let w := (c :: cs).takeWhile Char.isAlphanum
+          let word := classify (String.ofList w)
+          .word word :: lexAux fuel (if word = .global then .props else .shape) false (cs.drop (w.length - 1))
+        else if (c = '+' || c = '-') && !startsWithDigit cs then
+          (if c = '-' then Tok.minus else Tok.plus) :: lexAux fuel .shape false cs
+        else
+          let neg := c = '-'
+          let body := if c = '+' || c = '-' then cs else c :: cs
+          let (n, rest) := readNum neg body
+          -- `rest` is a proper suffix of `c :: cs`; the fuel bounds the recursion anyway
+          .num n :: lexAux fuel .shape false rest
+      | .props =>
+        if c.isAlpha then
+          let key := (c :: cs).takeWhile Char.isAlpha
+          let r := ((c :: cs).drop key.length).dropWhile isBlank
+          match r with
+          | '=' :: r1 =>
+            let r2 := r1.dropWhile isBlank
+            match r2 with
+            | '{' :: r3 =>
+              let v := r3.takeWhile (· ≠ '}')
+              .kv (mkKV (String.ofList key) .brace (String.ofList v)) :: lexAux fuel .props false (r3.drop (v.length + 1))
+            | '"' :: r3 =>
+              let v := r3.takeWhile (· ≠ '"')
+              .kv (mkKV (String.ofList key) .dquote (String.ofList v)) :: lexAux fuel .props false (r3.drop (v.length + 1))
+            | '\'' :: r3 =>
+              let v := r3.takeWhile (· ≠ '\'')
+              .kv (mkKV (String.ofList key) .squote (String.ofList v)) :: lexAux fuel .props false (r3.drop (v.length + 1))
+            | _ =>
+              let w := r2.takeWhile fun x => !(isBlank x || x = ';' || x = '\n')
+              let (more, rest) := readBareTail fuel (r2.drop w.length)
+              .kv (mkKV (String.ofList key) .bare (String.ofList (w ++ more))) :: lexAux fuel .props false rest
+          | _ =>
+            -- free text: to the end of the statement
+            let body := (c :: cs).takeWhile fun x => !(x = ';' || x = '\n')
+            .note (String.ofList (trimChars body)) :: lexAux fuel .props false ((c :: cs).drop body.length)
+        else
+          let body := (c :: cs).takeWhile fun x => !(x = ';' || x = '\n')
+          .note (String.ofList (trimChars body)) :: lexAux fuel .props false ((c :: cs).drop body.length)
+
+def lex (text : String) : List Tok := lexAux (text.length + 1) .shape true text.toList
+
 end RegionsVerif.Spec.Ds9
